@@ -172,7 +172,18 @@ type Answer struct {
 }
 
 // Check runs one query in its own push/pop scope.
+// Check decides one query. A solver process that does not answer within the wall-clock limit (its
+// own time limit plus 20 s - a starved machine or a wedged process) is restarted and the query is
+// put to the fresh process once more before the answer is "unknown".
 func (s *Solver) Check(q Query) Answer {
+	a := s.check1(q)
+	if a.Res == Unknown && strings.HasPrefix(a.Err, "solver did not answer within the wall-clock limit") {
+		a = s.check1(q)
+	}
+	return a
+}
+
+func (s *Solver) check1(q Query) Answer {
 	if s.dead || s.cmd == nil {
 		s.restart()
 	}
